@@ -26,7 +26,7 @@ BUILD = os.path.join(VERIF, "build")
 NWORK = int(os.environ.get("VERIF_WORKERS", "16"))
 
 sys.path.insert(0, VERIF)
-from registry import PROPS, WHITELIST, T4PKGS, NOT_APPLICABLE, TECHNIQUE  # noqa: E402
+from registry import PROPS, WHITELIST, T4PKGS, T8PKGS, NOT_APPLICABLE, TECHNIQUE  # noqa: E402
 
 
 def find_go():
@@ -108,7 +108,7 @@ def gen_overlay():
         shutil.rmtree(gen)
     cmd = [simify, "-repo", REPO, "-out", gen, "-overlay", os.path.join(BUILD, "overlay.json"),
            "-extra", os.path.join(BUILD, "extra.json"), "-report", os.path.join(BUILD, "simify_report.json"),
-           "-t4", ",".join(T4PKGS)] + WHITELIST
+           "-t4", ",".join(T4PKGS), "-t8", ",".join(T8PKGS)] + WHITELIST + T8PKGS
     r = run(cmd, capture_output=True, text=True)
     if r.returncode != 0:
         die("simify failed:\n" + r.stdout + r.stderr)
